@@ -53,6 +53,16 @@ CHECKS = {
         note="No axioms. Four repaired defects (D5 nil pause channel, D6 empty rollout balancer, D17 wildcard sub-path restore failure) kept as refuted lemmas on the pinned variant. "
              "JSON encoding is Go's (invalid UTF-8 in a stop message is replaced by U+FFFD: outside the generator, documented).",
         technique="Coq proof (bisimulation up to unobservable fields) + kernel-evaluated differential runs", ref="§7 C11"),
+    "C12": dict(
+        text="Theorems over all accepted traces of the snapshot view model/M5snap.v (props/C12.v), i.e. every crash point of every schedule of any number "
+             "of overlapping commands: on the repaired tree the file is absent only before the first completed snapshot, otherwise exactly one completed "
+             "snapshot of services installed / state held inside the window of the oldest command in progress; with one command at a time it is the "
+             "configuration before or after the command; it is current whenever no command is in progress; snapshot sections are serialised. Correspondence: "
+             "at every snapshot:* yield of every command of random histories, and after every step of random and all enumerated schedules of two overlapping "
+             "commands, the state directory is copied and a fresh Router restored from it; monitor on those observations alone.",
+        note="No axioms. Process-kill semantics only (no power loss / fsync ordering); crash points are the hook yields around the file-system calls. Pinned D7 (truncate, stale) "
+             "and the one-instant form for >=3 overlapping commands kept as refuted witnesses from real traces.",
+        technique="Coq proof (invariants over a trace acceptor) + crash-point enumeration on the real code, evaluated in the Coq kernel", ref="§7 C12"),
     "C13": dict(
         text="Theorems on model/Url.v + model/Headers.v over all byte strings (props/C13.v: path round trip for valid encodings, decoded path kept, "
              "identity without stripping, literal-prefix stripping byte for byte, query verbatim, X-Forwarded-* table, request id/start policy, "
